@@ -880,10 +880,10 @@ func checkC17(ctx *Ctx) *Result {
 					bad = "fastParseHost can succeed on the empty input"
 				}
 				v := fieldOf(pa.Rets[0], "Value")
-				if !(v.Op == "slice" && v.Args[0].Key() == "param:str") {
+				if !isSubstringOf(v, "param:str") {
 					sub = "fastParseHost returns a host that is not a substring of its argument: " + v.Key()
 				}
-				if rest := pa.Rets[1]; !(rest.Op == "slice" && rest.Args[0].Key() == "param:str") && !rest.IsConst(`""`) {
+				if rest := pa.Rets[1]; !isSubstringOf(rest, "param:str") && !rest.IsConst(`""`) {
 					sub = "fastParseHost returns a remainder that is not a substring of its argument: " + rest.Key()
 				}
 			}
@@ -978,6 +978,21 @@ func lineCallsOnlyLibrary(ctx *Ctx, fileLine string) bool {
 			})
 			return !own
 		}
+	}
+	return false
+}
+
+// isSubstringOf: t is base sliced any number of times (a slice of a slice of
+// a string is a substring of it), or base itself.
+func isSubstringOf(t *Term, base string) bool {
+	for t != nil {
+		if t.Key() == base {
+			return true
+		}
+		if t.Op != "slice" {
+			return false
+		}
+		t = t.Args[0]
 	}
 	return false
 }
